@@ -88,12 +88,16 @@ class Coro:
 class ExtMethod:
     """Assumed contract of a method of an external collaborator."""
 
-    def __init__(self, name, effect=False, returns=None, raises=None, fn=None, is_async=False):
+    def __init__(self, name, effect=False, returns=None, raises=None, fn=None, is_async=False,
+                 returns_field=None, native=None, sets=None):
         self.name = name
         self.effect = effect
         self.returns = returns
         self.fn = fn
         self.is_async = is_async
+        self.returns_field = returns_field
+        self.native = native
+        self.sets = sets or {}
 
     def apply(self, I, self_obj, args, kwargs):
         I.ctx.assumptions_used.add(f"external:{self_obj.cls.__name__}.{self.name}")
@@ -101,6 +105,10 @@ class ExtMethod:
             return self.fn(I, self_obj, args, kwargs)
         if self.effect:
             I.ctx.emit(f"{self_obj.cls.__name__}.{self.name}", self_obj, tuple(args), dict(kwargs))
+        for k, v in self.sets.items():
+            self_obj.fields[k] = v
+        if self.returns_field is not None:
+            return self_obj.fields[self.returns_field]
         if self.returns is not None:
             return self.returns(I, self_obj, args, kwargs)
         return None
@@ -451,6 +459,10 @@ def b_len(I, args, kwargs):
         from . import sdict
 
         return sdict.length(I, v)
+    if type(v).__name__ == "SMap":
+        from . import smap
+
+        return smap.length(I, v)
     if isinstance(v, Sym):
         raise Unsupported(f"len of {type(v).__name__}")
     if isinstance(v, SObj):
@@ -823,6 +835,100 @@ def b_frozenset(I, args, kwargs):
     return frozenset(items)
 
 
+def _fut_view(I, f):
+    """(state term, result, exc) of a future as seen now or in old(...)"""
+    if isinstance(f, SOpt):
+        f = f.value
+    if not isinstance(f, SFuture):
+        raise Unsupported(f"fut_* on {type(f).__name__}")
+    if I.in_old and I.old_view is not None and f.oid in I.old_view:
+        o = I.old_view[f.oid]
+        return o["state"], o["result"], o["exc"]
+    return f.state, f.result, f.exc
+
+
+def _native_fut_state(f):
+    from .replay import FutureView
+
+    if isinstance(f, FutureView):
+        return f.state()
+    if not f.done():
+        return 0
+    if f.cancelled():
+        return 3
+    return 2 if f.exception() is not None else 1
+
+
+def b_fut_state(I, args, kwargs):
+    (f,) = args
+    if I.native:
+        return _native_fut_state(f)
+    return SInt(_fut_view(I, f)[0])
+
+
+def b_fut_done(I, args, kwargs):
+    (f,) = args
+    if I.native:
+        return _native_fut_state(f) != 0
+    return SBool(_fut_view(I, f)[0] != 0)
+
+
+def b_fut_result(I, args, kwargs):
+    (f,) = args
+    if I.native:
+        from .replay import FutureView
+
+        return f.result_value() if isinstance(f, FutureView) else f.result()
+    return _fut_view(I, f)[1]
+
+
+def b_fut_exc(I, args, kwargs):
+    (f,) = args
+    if I.native:
+        from .replay import FutureView
+
+        return f.exc_value() if isinstance(f, FutureView) else f.exception()
+    return _fut_view(I, f)[2]
+
+
+def b_implies(I, args, kwargs):
+    a, b = args
+    fa, fb = I.formula(a), I.formula(b)
+    if isinstance(fa, bool):
+        return True if not fa else I.as_bool_value(fb)
+    return SBool(z3.Implies(fa, _z(fb)))
+
+
+def b_unchanged_except(I, args, kwargs):
+    new, old, keys = args
+    if I.native:
+        ks = set(keys)
+        for k in set(new) | set(old):
+            if k in ks:
+                continue
+            if (k in new) != (k in old):
+                return False
+            a, b = new[k], old[k]
+            if not _native_same(a, b):
+                return False
+        return True
+    from . import smap
+
+    return I.as_bool_value(smap.unchanged_except(I, new, old, list(keys)))
+
+
+def _native_same(a, b):
+    from .replay import FutureView, _same
+
+    if isinstance(a, tuple) and isinstance(b, tuple) and len(a) == len(b):
+        return all(_native_same(x, y) for x, y in zip(a, b))
+    if isinstance(b, FutureView):
+        return b._fut is a
+    if isinstance(a, FutureView):
+        return a._fut is b
+    return _same(b, a)
+
+
 BUILTIN_TYPE_MODELS = {}
 
 
@@ -834,6 +940,8 @@ def builtin_table(I):
         "any": b_any, "all": b_all, "callable": b_callable, "getattr": b_getattr, "hasattr": b_hasattr,
         "int": b_int, "bool": b_bool, "str": b_str, "repr": b_repr, "hash": b_hash, "id": b_id,
         "sorted": b_sorted, "sum": b_sum, "super": b_super, "print": b_print, "frozenset": b_frozenset,
+        "fut_state": b_fut_state, "fut_done": b_fut_done, "fut_result": b_fut_result, "fut_exc": b_fut_exc,
+        "implies": b_implies, "unchanged_except": b_unchanged_except,
     }
     out = {k: Model(k, v) for k, v in tbl.items()}
     for name, typ in (("bytes", bytes), ("bytearray", bytearray), ("int", int), ("bool", bool), ("str", str),
@@ -861,6 +969,14 @@ def method_model(I, key, self_, args, kwargs):
         from . import sdict
 
         return sdict.method(I, self_, name, args, kwargs)
+    if kind == "smap":
+        from . import smap
+
+        return smap.method(I, self_, name, args, kwargs)
+    if kind == "scoll":
+        from . import smap
+
+        return smap.coll_method(I, self_, name, args, kwargs)
     if kind == "native-mutable":
         return native_mutable_method(I, self_, name, args, kwargs)
     raise Unsupported(f"method model {key}")
